@@ -78,7 +78,7 @@ def apiRead : NetM (Option Frame) := do
 
 /-- `multicast(message, message_type, level)` -/
 def apiMulticast (msg : Bytes) (ty : Int) (level : Option Int) : NetM Bool := do
-  let ok ← validateMsgLen msg.length
+  let ok ← nodeValidateMsgLen msg.length
   let msg := if ok then msg else msg.take MAX_FRAG_SIZE
   let n ← getNode
   let lvl : Nat := match level with
@@ -96,7 +96,7 @@ def apiNetWrite (to : Int) (ty : Int) (msg : Bytes) (direct : Nat) : NetM (Bool 
   let hdr : Header := { fromNode := 0o7777, toNode := maskInt to 0xFFF, frameId := id,
                         msgType := .int (maskInt ty 0xFF), reserved := 0 }
   if !isValid hdr.toNode then throw .attributeError
-  let ok ← validateMsgLen msg.length
+  let ok ← nodeValidateMsgLen msg.length
   let msg := if ok then msg else msg.take MAX_FRAG_SIZE
   let n ← getNode
   modNode fun nd => { nd with frameBuf := { header := { hdr with fromNode := n.a.addr }, message := msg } }
@@ -112,7 +112,7 @@ def apiNetWrite (to : Int) (ty : Int) (msg : Bytes) (direct : Nat) : NetM (Bool 
 
 /-- `RF24MeshNoMaster.write(to_node, message_type, message)` -/
 def meshWrite (to : Nat) (ty : Int) (msg : Bytes) : NetM Bool := do
-  let ok ← validateMsgLen msg.length
+  let ok ← nodeValidateMsgLen msg.length
   let msg := if ok then msg else msg.take MAX_FRAG_SIZE
   let n ← getNode
   if n.a.addr = NETWORK_DEFAULT_ADDR ∨ !isValid to then return false
